@@ -45,9 +45,14 @@ type Solver struct {
 
 	started         bool
 	pathsSinceReset int
+	// dead: the solver process was killed by the watchdog (a query ran far past
+	// its timeout). Every further query of the current path answers Unknown; the
+	// process is restarted at the next Reset.
+	dead     bool
+	Watchdog int
 }
 
-func NewSolver(kind string, timeoutMs int) (*Solver, error) {
+func NewSolverProc(kind string, timeoutMs int) (*Solver, error) {
 	var cmd *exec.Cmd
 	switch kind {
 	case "z3":
@@ -72,6 +77,14 @@ func NewSolver(kind string, timeoutMs int) (*Solver, error) {
 		return nil, err
 	}
 	s := &Solver{kind: kind, cmd: cmd, in: in, out: bufio.NewReaderSize(outp, 1<<16), timeout: timeoutMs}
+	return s, nil
+}
+
+func NewSolver(kind string, timeoutMs int) (*Solver, error) {
+	s, err := NewSolverProc(kind, timeoutMs)
+	if err != nil {
+		return nil, err
+	}
 	s.Reset()
 	return s, nil
 }
@@ -102,7 +115,25 @@ func (s *Solver) flush() {
 }
 
 // Reset clears all assertions and definitions (start of a new path).
+func (s *Solver) restart() {
+	s.in.Close()
+	s.cmd.Process.Kill()
+	s.cmd.Wait()
+	n, err := NewSolverProc(s.kind, s.timeout)
+	if err != nil {
+		s.Errors = append(s.Errors, "solver restart: "+err.Error())
+		return
+	}
+	s.cmd, s.in, s.out = n.cmd, n.in, n.out
+	s.buf.Reset()
+	s.started = false
+	s.dead = false
+}
+
 func (s *Solver) Reset() {
+	if s.dead {
+		s.restart()
+	}
 	s.names = map[*Term]string{}
 	s.vars = map[string]int{}
 	s.ufs = map[string]string{}
@@ -232,6 +263,9 @@ func (s *Solver) Check(extra ...*Term) SatResult {
 		s.send("(check-sat-assuming (" + strings.Join(lits, " ") + "))")
 	}
 	t0 := time.Now()
+	if s.dead {
+		s.buf.Reset()
+	}
 	s.flush()
 	res := s.readCheck()
 	if len(lits) > 0 && s.kind == "cvc5" {
@@ -263,6 +297,9 @@ func (s *Solver) CheckBoth(c *Term) (SatResult, SatResult) {
 	s.send("(check-sat-assuming (" + n + "))")
 	s.send("(check-sat-assuming (" + nn + "))")
 	t0 := time.Now()
+	if s.dead {
+		s.buf.Reset()
+	}
 	s.flush()
 	rt := s.readCheck()
 	rf := s.readCheck()
@@ -282,9 +319,26 @@ func (s *Solver) CheckBoth(c *Term) (SatResult, SatResult) {
 }
 
 func (s *Solver) readCheck() SatResult {
+	if s.dead {
+		return Unknown
+	}
+	// z3 does not always honour :timeout (some tactics do not poll it): a hard
+	// watchdog kills the process; the query and the rest of the path are Unknown.
+	proc := s.cmd.Process
+	fired := false
+	wd := time.AfterFunc(time.Duration(2*s.timeout+5000)*time.Millisecond, func() {
+		fired = true
+		proc.Kill()
+	})
+	defer wd.Stop()
 	for {
 		line, err := s.out.ReadString('\n')
 		if err != nil {
+			if fired {
+				s.dead = true
+				s.Watchdog++
+				return Unknown
+			}
 			s.Errors = append(s.Errors, "solver died: "+err.Error())
 			return Unknown
 		}
